@@ -258,7 +258,9 @@ extract_args(vector_string &args, const string &expr, size_t &p) const {
     int paren_level = 1;
     size_t q = p;
     while (p < expr.size()) {
-      if (expr[p] == ',' && paren_level == 1) {
+      if (expr[p] == ',' && paren_level == 1 &&
+          (_variadic_param < 0 || (int)args.size() < _variadic_param)) {
+        // (The variable arguments are kept together, commas included.)
         // Back up to strip any trailing whitespace.
         size_t r = p;
         while (r > q && isspace(expr[r - 1])) {
@@ -637,11 +639,6 @@ r_expand(const Expansion &expansion, const vector_string &args,
       if (i < (int)args.size()) {
         subst = args[i];
 
-        if (i == _variadic_param) {
-          for (++i; i < (int)args.size(); ++i) {
-            subst += ", " + args[i];
-          }
-        }
         if (node._stringify) {
           subst = stringify(subst);
         }
